@@ -160,6 +160,12 @@ Inductive kind :=
   | KBindMain (b : bid) (lhs_change : nid)
   | KExpert (x : nat).                              (* index into [experts] *)
 
+Inductive previously := PNever | PNecessary | PChanged | PInvalidated | PUnnecessary.
+Inductive node_update := NUNecessary | NUChanged | NUInvalidated | NUUnnecessary.
+
+Record handler := Handler { hd_token : Z; hd_fn : hfn; hd_prev : previously; hd_created_at : Z }.
+Global Instance eta_handler : Settable _ := settable! Handler <hd_token; hd_fn; hd_prev; hd_created_at>.
+
 Record node := Node {
   n_kind : kind;
   n_valid : bool;
@@ -180,11 +186,12 @@ Record node := Node {
   n_observers : list oid;
   n_mapref_did_change : bool;
   n_live : bool;
+  n_handlers : list handler;      (* on_update_handlers: handlers attached to the node itself (Incr::on_update) *)
 }.
 Global Instance eta_node : Settable _ := settable! Node
   <n_kind; n_valid; n_value; n_cutoff; n_recomputed_at; n_changed_at; n_num_handlers; n_parents;
    n_created_in; n_pix_in_child; n_cix_in_parent; n_height; n_height_in_rch; n_height_in_ahh;
-   n_in_has; n_force_necessary; n_observers; n_mapref_did_change; n_live>.
+   n_in_has; n_force_necessary; n_observers; n_mapref_did_change; n_live; n_handlers>.
 
 Record bind := Bind {
   b_lhs : nid;
@@ -249,11 +256,6 @@ Global Instance eta_var : Settable _ := settable! Var
   <v_value; v_pending; v_set_at; v_node; v_node_id; v_handles; v_live>.
 
 Inductive ostate := OCreated | OInUse | ODisallowed | OUnlinked.
-Inductive previously := PNever | PNecessary | PChanged | PInvalidated | PUnnecessary.
-Inductive node_update := NUNecessary | NUChanged | NUInvalidated | NUUnnecessary.
-
-Record handler := Handler { hd_token : Z; hd_fn : hfn; hd_prev : previously; hd_created_at : Z }.
-Global Instance eta_handler : Settable _ := settable! Handler <hd_token; hd_fn; hd_prev; hd_created_at>.
 
 Record obs := Obs {
   o_state : ostate;
@@ -303,6 +305,7 @@ Inductive event :=
   | EvBindRun (n : nid) (gen : Z) (lhs : val)               (* bind closure call (n = lhs_change node) *)
   | EvCut (n : nid) (old new : val) (r : bool)              (* user cutoff function call *)
   | EvUpd (o : oid) (token : Z) (hid : Z) (u : node_update) (v : option val)   (* subscription callback *)
+  | EvNodeUpd (n : nid) (ix : Z) (hid : Z) (u : node_update) (v : option val)  (* Incr::on_update callback *)
   | EvEffRead (o : oid) (r : res val + Z)                   (* ERead result: value or error code *)
   | EvEffGet (x : vid) (v : val)
   | EvEffReplace (x : vid) (v : val)
